@@ -118,14 +118,14 @@ Fixpoint blocks_loop (fuel : nat) (strict : bool) (window blockMax : N) (e : ent
       (if btype =? 0 then
          check (bsize <=? blockMax) else Esafety @ 422;
          do sp <- of_opt (splitn (N.to_nat bsize) r0) Etrunc 423;
-         Ok (e, {| x_hist := rev_append (fst sp) (x_hist x); x_avail := x_avail x + bsize; x_pos := x_pos x + bsize; x_blk := bsize |},
+         Ok (e, push_fwd x (fst sp) bsize,
              snd sp, {| bt_type := 0; bt_last := last; bt_csize := bsize; bt_rsize := bsize; bt_litmode := 0; bt_litsize := 0; bt_seqmodes := 0; bt_seqs := [] |})
        else if btype =? 1 then
          check (bsize <=? blockMax) else Esafety @ 424;
          match r0 with
          | [] => Err Etrunc 425
          | v :: t =>
-           Ok (e, {| x_hist := repeatN v (N.to_nat bsize) (x_hist x); x_avail := x_avail x + bsize; x_pos := x_pos x + bsize; x_blk := bsize |},
+           Ok (e, push_rev x (repeatN v (N.to_nat bsize) []) bsize,
                t, {| bt_type := 1; bt_last := last; bt_csize := bsize; bt_rsize := bsize; bt_litmode := 0; bt_litsize := 0; bt_seqmodes := 0; bt_seqs := [] |})
          end
        else if btype =? 2 then
@@ -158,14 +158,14 @@ Definition decode_frame (cfg : config) (d : option dict) (src : bytes) : res (by
             end);
   let '(e0, dcontent) := dd in
   let blockMax := N.min (N.min (fh_window fh) BLOCK_MAX) (c_block_max cfg) in
-  let x0 := {| x_hist := rev' dcontent; x_avail := lenN dcontent; x_pos := 0; x_blk := 0 |} in
+  let x0 := {| x_hist := rev' dcontent; x_marks := []; x_avail := lenN dcontent; x_pos := 0; x_blk := 0 |} in
   do b <- blocks_loop (S (length r0)) (c_strict_window cfg) (fh_window fh) blockMax e0 x0 r0 [];
   let '(x, r1, bts) := b in
   let out := frame_output x in
   check (match fh_fcs fh with Some v => v =? x_pos x | None => true end) else Eintegrity @ 433;
   do c <- (if fh_checksum fh then
              do r <- of_opt (read_le 4 r1) Etrunc 434;
-             check (orb (negb (c_check cfg)) (fst r =? xxh64 out 0 mod 4294967296)) else Eintegrity @ 435;
+             check (orb (negb (c_check cfg)) (fst r =? N.land (xxh64 out 0) 4294967295)) else Eintegrity @ 435;
              Ok (Some (fst r), snd r)
            else Ok (None, r1));
   let '(ck, r2) := c in
